@@ -60,7 +60,10 @@ def run_property(prop, tier, seed, jobs, replay=None):
     mod = importlib.import_module('pvmon.props.' + prop.lower())
     nshards = 1 if replay else mod.SHARDS[tier]
     timeout = getattr(mod, 'TIMEOUT', {'quick': 600, 'thorough': 5400})[tier]
-    outdir = os.path.join(HERE, 'out', prop)
+    outdir = os.path.join(os.environ.get('VERIF_OUT') or os.path.join(HERE, 'out'), prop)
+    scratch = os.path.realpath(os.environ.get('VERIF_REPO', '/repo')) != '/repo'
+    if scratch:  # runs against a scratch copy never touch the real evidence or replay files
+        outdir = os.path.join(outdir, 'scratch-%d' % os.getpid())
     rundir = os.path.join(outdir, 'run')
     shutil.rmtree(rundir, ignore_errors=True)
     os.makedirs(rundir, exist_ok=True)
@@ -197,6 +200,8 @@ def run_property(prop, tier, seed, jobs, replay=None):
             'violations': int(unlisted),
         }
         evpath = os.path.join(HERE, 'evidence', prop + '.json')
+        if scratch or os.environ.get('VERIF_NO_EVIDENCE'):
+            evpath = os.path.join(outdir, 'evidence-%s.json' % prop)
         os.makedirs(os.path.dirname(evpath), exist_ok=True)
         with open(evpath, 'w') as fid:
             json.dump(ev, fid, indent=1, sort_keys=True)
@@ -213,6 +218,8 @@ def run_property(prop, tier, seed, jobs, replay=None):
                 inconclusive.append('evidence does not validate: %s' % str(exc)[:300])
                 verdict = 'INCONCLUSIVE'
 
+    if scratch:
+        shutil.rmtree(rundir, ignore_errors=True)
     for line in lines:
         print(line)
     print('%s %s seed=%s: %s; %d cases, %d oracle evaluations, %d distinct non-trivial, %.1fs'
